@@ -3,7 +3,7 @@ From Coq Require Import List String.
 From VQ.Gen Require Import npinit_fsq.
 Import ListNotations.
 Open Scope string_scope.
-Lemma pin_npinit_fsq : npinit_fsq =
+Definition pinned_npinit_fsq : list string :=
   ["_basis=_basis";
    "_levels=_levels";
    "implicit_codebook=implicit_codebook";
@@ -11,4 +11,5 @@ Lemma pin_npinit_fsq : npinit_fsq =
    "local _basis=torch.cumprod(torch.tensor([1] + levels[:-1]), dim=0, dtype=int32)";
    "local implicit_codebook=self._indices_to_codes(torch.arange(self.codebook_size))";
    "local self.codebook_size=self._levels.prod().item()"].
+Lemma pin_npinit_fsq : npinit_fsq = pinned_npinit_fsq.
 Proof. reflexivity. Qed.
